@@ -40,7 +40,7 @@ def run(name):
         if s.count(old) != 1:
             print(name, 'PATCH DOES NOT APPLY (%d occurrences) in %s' % (s.count(old), f)); return
         open(p, 'w').write(s.replace(old, new))
-    env = dict(os.environ, VERIF_REPO=d)
+    env = dict(os.environ, VERIF_REPO=d, VERIF_EVIDENCE_DIR=d + '/evidence', VERIF_REPLAY_DIR=d + '/replays')
     p = subprocess.run([os.path.join(HERE, 'check'), 'C06'], env=env, capture_output=True, text=True)
     viol = [l for l in p.stdout.split('\n') if l.startswith('VIOLATION')]
     import json
@@ -54,7 +54,7 @@ def run(name):
             what.append(l)
     print('%-44s exit=%d violations=%d' % (name, p.returncode, len(viol)))
     for w in what: print('      ', w)
-    shutil.rmtree(d, ignore_errors=True)
+    shutil.rmtree(d, ignore_errors=True)   # (evidence and replays of the mutant run go with it)
 if __name__ == '__main__':
     for n in (sys.argv[1:] or list(MUTANTS)):
         run(n)
